@@ -171,7 +171,7 @@ fn environments(
     (
         opt(skip_ws_and_comments(into(terminated(
             identifier,
-            into_inner(skip_ws(tag(INSTRUCTIONS))),
+            into_inner(skip_ws_and_comments(tag(INSTRUCTIONS))),
         )))),
         skip_ws_and_comments(map(
             opt(terminated(
